@@ -38,7 +38,7 @@ CFG = dict(
          "and push collected commits towards a decision; in 40 % of the schedules a correct operator's own Broadcast fails (2 % of its ops, error AFTER or BEFORE the message left, at "
          "whatever broadcast site the op reaches — modelled by Ssv/Model/Qbft/Faulty.lean, `nf=a|b` on the op line); 10 directed scenarios first (incl. the cross-role replay repaired by "
          "e1612ceed, stale-round justification, forged round-change of a known signer, commit-broadcast fault then unlocked round-change); every correct operator's exact input sequence and "
-         "outputs form a `reset` case that is diffed against the Lean model",
+         "outputs form a `reset` case that is diffed against the Lean model PRODUCTION-CONFIG share: in 25–35 % of the cases (and directed ones) the node objects are the ones a real node builds — operator/validator.SetupRunners(validator.Options{…, non-nil MessageValidator}) → attester runner → QBFTController, with the production ProposerF closure, SignatureVerification flag, ssv-spec AttesterValueCheckF, default domain (injected by SetDefaultDomain) and identifier; only Timer / Network / Storage are swapped for the recorders (harness/cmd/qbft/prodcfg.go; consensus values are valid attester ConsensusData).",
     trusted_base=["harness abstraction + scheduler (harness/cmd/qbft/simsearch.go, directed.go)", "BLS / SHA-256 abstracted"],
     assumptions=["unforgeability of BLS signatures, collision-free hashing", "light node, no runner compaction, light node, no runner compaction (scope of the theorems); several heights per controller are covered by C01Heights"],
     explanation="KNOWN-FINDING lines: agreement fails on the compacting node (directed scenarios with Byzantine leader + compaction, reproduced on every run).",
